@@ -17,7 +17,7 @@ pub fn x_round(ctx: &mut Ctx) -> Dd {
     }
     if ctx.chance(1, 6) {
         ctx.label("generic");
-        return dd_exp(ctx, -1022, 1023, true);
+        return dd_all(ctx);
     }
     let e = match ctx.weighted(&[4, 4, 3, 2]) {
         0 => ctx.range(0, 60),
